@@ -168,7 +168,10 @@ def run(case, ctx):
         return out
     r0 = wd.run_script()
     if r0.returncode != 0:
-        out.label('unmutated-test-fails(C11)')
+        out.violate('passes-when-unchanged', 'first-run:' + (','.join(
+            G.failing_tests(r0)) or 'exit'),
+            'nothing has changed since generation but the generated test '
+            'fails: %s' % ((r0.stderr or r0.stdout)[-500:]))
         return out
     applied = 0
     for m in case['mutations']:
